@@ -19,11 +19,17 @@ class Lock:
         self.f.close()
 
 
-def build(targets, timeout=3000):
-    """returns (ok, log, seconds).  Builds only the named modules/targets and what they import."""
+def build(targets, timeout=3000, copy_exe=None):
+    """returns (ok, log, seconds).  Builds only the named modules/targets and what they import.
+    copy_exe=(name, dest): after a successful build, and still under the lock, copy the executable to `dest`, so that the
+    caller runs a private copy that no concurrent check can relink under its feet."""
+    import shutil
     t0 = time.time()
     with Lock():
         p = subprocess.run(["lake", "build"] + list(targets), cwd=LEAN, capture_output=True, text=True, timeout=timeout)
+        if p.returncode == 0 and copy_exe:
+            src = os.path.join(LEAN, ".lake", "build", "bin", copy_exe[0])
+            shutil.copy2(src, copy_exe[1])
     return p.returncode == 0, (p.stdout + p.stderr), time.time() - t0
 
 
